@@ -1492,6 +1492,11 @@ func (g *gen) genStructs() []string {
 		g.f("funclit-arguments")
 		decls = append(decls, "func hofRun(f func()) {\n\tf()\n}\n\nfunc hofTry(f func(string) (int, error), s string) (int, error) {\n\treturn f(s)\n}\n\nfunc hofBin(f func(a, b int) int) int {\n\treturn f(2, 3)\n}\n\nfunc hofVar(f func(xs ...int) int) int {\n\treturn f(1, 2, 3)\n}\n\nfunc hofPair(f func(int) (int, string)) string {\n\tn, s := f(4)\n\treturn fmt.Sprint(n, s)\n}\n\nfunc hofTwo() (int, string) {\n\treturn 7, \"seven\"\n}")
 	}
+	if g.chance(40, "aliases") {
+		// package-level alias declarations, single and grouped, over basic, composite and named types
+		g.f("type-aliases")
+		decls = append(decls, "type IntsAlias = []int\n\ntype (\n\tStrAlias   = string\n\tPairAlias  = struct{ a, b int }\n\tFuncAlias  = func(int) int\n\tAliasAlias = IntsAlias\n)")
+	}
 	if g.chance(35, "embedzoo") {
 		// embedded fields of every spelling: T, *T, pkg.T, *pkg.T, a predeclared interface
 		g.f("embedded-field-zoo")
@@ -1808,6 +1813,9 @@ func GenOpt(opt Options) *rapid.Generator[*Program] {
 		g.budget = 12 + g.intn(20, "mainbudget")
 		for g.budget > 0 {
 			p.Main = append(p.Main, g.stmt(msc, 3))
+		}
+		if strings.Contains(strings.Join(p.Decls, "\n"), "type IntsAlias = ") {
+			p.Main = append(p.Main, fmt.Sprintf("{\n\tvar al IntsAlias = []int{%s}\n\tvar sa StrAlias = \"s\"\n\tvar fa FuncAlias = func(x int) int { return x + 1 }\n\tvar aa AliasAlias = append(al, 2)\n\tfmt.Println(\"alias\", al, sa+\"!\", PairAlias{1, 2}, fa(len(aa)), aa)\n}", g.expr(msc, tInt, 1)))
 		}
 		if strings.Contains(strings.Join(p.Decls, "\n"), "func hofRun(") {
 			calls := []string{
